@@ -946,3 +946,141 @@ Proof.
   - rewrite B, B'. cbn. apply existsb_perm, HP.
   - rewrite A, A'. cbn. apply Permutation_map, perm_filter, HP.
 Qed.
+
+(** *** C09 (c): the numbers of the profile and the key sets of the shapes *)
+
+Lemma key_passes_occ_perm fa c thr I I' g g' cls inv p vc :
+  insts_equiv I I' -> Permutation g g' ->
+  key_passes_occ fa c thr I g cls inv p vc -> key_passes_occ fa c thr I' g' cls inv p vc.
+Proof.
+  intros He HP (Hi & k & ck & Hv & Hp & Hf). split; [exact Hi|]. exists k, ck.
+  rewrite <- (occ_perm_equiv (dir_of inv) (r_tau c) I I' g g' cls p k ck He HP).
+  rewrite <- (class_count_insts_equiv I I' cls He). auto.
+Qed.
+
+(** two runs on two orders of the same statements (no cap, empty shapes kept)
+    that both succeed: same shape classes, and class by class the same name,
+    the same header count and the same set of keys *)
+Theorem e2e_keys_perm fa c thr g g' ns shapes ns' shapes' :
+  (r_cap c <= 0)%Z -> r_remove_empty c = false -> Permutation g g' ->
+  run_shapes fa c thr g = inl (ns, shapes) -> run_shapes fa c thr g' = inl (ns', shapes') ->
+  ns' = ns /\
+  (forall cls, In cls (map sh_class shapes) <-> In cls (map sh_class shapes')) /\
+  forall sh sh', In sh shapes -> In sh' shapes' -> sh_class sh = sh_class sh' ->
+    sh_name sh = sh_name sh' /\ sh_n sh = sh_n sh' /\
+    forall key, In key (map (skey (scfg_of c ns)) (sh_stmts sh)) <->
+                In key (map (skey (scfg_of c ns)) (sh_stmts sh')).
+Proof.
+  intros Hcap Hre HP H H'.
+  assert (Ens : ns' = ns).
+  { apply run_shapes_decompose in H, H'. destruct H as (_ & _ & _ & _ & A & _). destruct H' as (_ & _ & _ & _ & A' & _).
+    congruence. }
+  subst ns'. split; [reflexivity|].
+  destruct (e2e_figures fa c thr g ns shapes H) as (J & HTJ & HF).
+  destruct (e2e_figures fa c thr g' ns shapes' H') as (J' & HTJ' & HF').
+  destruct (e2e_keys_iff_occ fa c thr g ns shapes Hre H) as (I & HT & HC & HK).
+  destruct (e2e_keys_iff_occ fa c thr g' ns shapes' Hre H') as (I' & HT' & HC' & HK').
+  assert (J = I) by congruence. assert (J' = I') by congruence. subst J J'.
+  destruct (track_perm _ _ _ g g' I Hcap HP HT) as (I'' & HT'' & He).
+  assert (I'' = I') by congruence. subst I''.
+  split.
+  - intros cls. rewrite HC, HC'. apply class_keys_insts_equiv, He.
+  - intros sh sh' Hsh Hsh' Ecls.
+    destruct (HK sh Hsh) as (En & Hk & _). destruct (HK' sh' Hsh') as (En' & Hk' & _).
+    destruct (HF sh Hsh) as (_ & Enm & _). destruct (HF' sh' Hsh') as (_ & Enm' & _).
+    split; [rewrite Enm, Enm', Ecls; reflexivity|].
+    split; [rewrite En, En', Ecls; apply class_count_insts_equiv, He|].
+    intros [[inv p] vc]. rewrite Hk, Hk', Ecls. split.
+    + apply key_passes_occ_perm; assumption.
+    + apply key_passes_occ_perm; [apply insts_equiv_sym, He | apply Permutation_sym, HP].
+Qed.
+
+(** the tracker and the profiler stages: if they succeed on one order they
+    succeed on the other, with the same class keys (as a set), the same
+    class counts and the same number under every lookup *)
+Theorem e2e_profile_perm c g g' I P C ID :
+  (r_cap c <= 0)%Z -> r_remove_empty c = false -> Permutation g g' ->
+  track (r_tau c) (mode_of c) (r_cap c) g = inl I ->
+  profile (pcfg_of c) I g = inl (P, C, ID) ->
+  exists I' P' C' ID',
+    track (r_tau c) (mode_of c) (r_cap c) g' = inl I' /\ insts_equiv I I' /\
+    profile (pcfg_of c) I' g' = inl (P', C', ID') /\
+    (forall cls, In cls (dkeys P) <-> In cls (dkeys P')) /\
+    (forall cls, cnt_of C cls = cnt_of C' cls) /\
+    forall cls e e', dget P cls = Some e -> dget P' cls = Some e' ->
+      forall p k card,
+        plook (c_direct e) p k card = plook (c_direct e') p k card /\
+        plook (c_inverse e) p k card = plook (c_inverse e') p k card.
+Proof.
+  intros Hcap Hre HP HT HPr.
+  destruct (track_perm _ _ _ g g' I Hcap HP HT) as (I' & HT' & He).
+  pose proof (proj1 (track_insts_ok _ _ _ _ _ HT)) as N1.
+  pose proof (proj1 (track_insts_ok _ _ _ _ _ HT')) as N2.
+  (* the feature pass succeeds on the other order *)
+  destruct (profile (pcfg_of c) I' g') as [[[P' C'] ID']|e] eqn:HPr'.
+  2:{ exfalso. apply run_profile_err in HPr'. destruct HPr' as [_ (t & Ht & Hd & Hp & Hn)].
+      assert (Hbad : profile (pcfg_of c) I g = inr PEAttr).
+      { apply run_profile_err. split; [reflexivity|]. exists t.
+        split; [apply (Permutation_in _ (Permutation_sym HP)); exact Ht|].
+        destruct He as (_ & _ & D & _). repeat split; auto. rewrite D. exact Hd. }
+      congruence. }
+  exists I', P', C', ID'. split; [exact HT'|]. split; [exact He|]. split; [exact HPr'|].
+  (* both profiles are raw profiles *)
+  rewrite profile_result in HPr, HPr'.
+  change (p_remove_empty (pcfg_of c)) with (r_remove_empty c) in HPr, HPr'. rewrite Hre in HPr, HPr'.
+  destruct (annotate_all (p_tau (pcfg_of c)) (p_inverse (pcfg_of c)) g (adapt I)) as [ID0|] eqn:HA; [|discriminate].
+  destruct (annotate_all (p_tau (pcfg_of c)) (p_inverse (pcfg_of c)) g' (adapt I')) as [ID0'|] eqn:HA'; [|discriminate].
+  destruct (raw_profile (pcfg_of c) I ID0) as [P1 C1] eqn:HR.
+  destruct (raw_profile (pcfg_of c) I' ID0') as [P1' C1'] eqn:HR'.
+  injection HPr as <- <- <-. injection HPr' as <- <- <-.
+  destruct (profile_counts_char _ _ _ _ _ _ N1 HA HR) as (K1 & K2 & _ & K4 & K5).
+  destruct (profile_counts_char _ _ _ _ _ _ N2 HA' HR') as (K1' & K2' & _ & K4' & K5').
+  assert (Hkeys : forall cls, In cls (dkeys P1) <-> In cls (dkeys P1')).
+  { intros cls. rewrite K1, K1'. apply class_keys_insts_equiv, He. }
+  split; [exact Hkeys|]. split.
+  - intros cls. unfold cnt_of. destruct (dget C1 cls) as [n|] eqn:E.
+    + assert (Hin : In cls (dkeys P1)).
+      { rewrite <- K2. apply dmem_In. unfold dmem. rewrite E. reflexivity. }
+      rewrite (K4 cls Hin) in E. injection E as <-.
+      rewrite (K4' cls (proj1 (Hkeys cls) Hin)). apply class_count_insts_equiv, He.
+    + destruct (dget C1' cls) as [n'|] eqn:E'; [|reflexivity]. exfalso.
+      assert (Hin : In cls (dkeys P1')).
+      { rewrite <- K2'. apply dmem_In. unfold dmem. rewrite E'. reflexivity. }
+      apply Hkeys in Hin. rewrite <- K2 in Hin. apply dget_None in E. contradiction.
+  - intros cls e e' Hg Hg' p k card.
+    destruct (K5 cls e Hg) as (D1 & _ & D3). destruct (K5' cls e' Hg') as (D1' & _ & D3').
+    split.
+    + rewrite D1, D1'. apply occ_perm_equiv; assumption.
+    + destruct (p_inverse (pcfg_of c)).
+      * rewrite (proj1 D3), (proj1 D3'). apply occ_perm_equiv; assumption.
+      * rewrite D3, D3'. reflexivity.
+Qed.
+
+(** C09 (b), summary: the counts of the spec do not depend on the order of
+    the statements, the tracker's dictionary included *)
+Theorem counts_track_perm tau m cap g g' I :
+  (cap <= 0)%Z -> Permutation g g' -> track tau m cap g = inl I ->
+  exists I', track tau m cap g' = inl I' /\ insts_equiv I I' /\
+    (forall cls, class_count I' cls = class_count I cls) /\
+    (forall dir cls p k card, occ dir tau I' g' cls p k card = occ dir tau I g cls p k card).
+Proof.
+  intros Hcap HP HT. destruct (track_perm tau m cap g g' I Hcap HP HT) as (I' & HT' & He).
+  exists I'. split; [exact HT'|]. split; [exact He|]. split.
+  - intros cls. symmetry. apply class_count_insts_equiv, He.
+  - intros dir cls p k card. symmetry. apply occ_perm_equiv; assumption.
+Qed.
+
+(** a configuration switch used by the examples of the Props files *)
+Definition with_remove_empty (b : bool) (c : rcfg) : rcfg :=
+  {| r_tau := r_tau c; r_targets := r_targets c; r_ns := r_ns c; r_shapes_ns := r_shapes_ns c; r_cap := r_cap c;
+     r_inverse := r_inverse c; r_remove_empty := b; r_discard_useless := r_discard_useless c;
+     r_keep_less_specific := r_keep_less_specific c; r_all_compliant := r_all_compliant c; r_disable_or := r_disable_or c;
+     r_allow_redundant_or := r_allow_redundant_or c; r_allow_opt := r_allow_opt c;
+     r_disable_exact := r_disable_exact c; r_disable_comments := r_disable_comments c; r_mode := r_mode c |}.
+
+(** classes, header counts and keys of a run, for the examples *)
+Definition keys_of_run (fa : FreqAlg) (c : rcfg) (thr : F fa) (g : graph) :=
+  match run_shapes fa c thr g with
+  | inl (ns, l) => Some (map (fun sh => (sh_class sh, sh_n sh, map (skey (scfg_of c ns)) (sh_stmts sh))) l)
+  | inr _ => None
+  end.
